@@ -568,7 +568,7 @@ class H2Server(TimerMixin, Peer):
         self.w.probes["h2_truncated"] += 1
         self.w.stats["hostile:trunc"] += 1
         if kind == "rst":
-            self.c.reset_stream(sid, error_code=2)
+            self.c.reset_stream(sid, error_code=plan.get("trunc_code", 2))
             self.pending.pop(sid, None)
             self.ledger.server_ended(sid)
             self._flush(now)
